@@ -15,6 +15,7 @@ import (
 	"strings"
 	"time"
 
+	"gorm.io/gorm"
 	"pgregory.net/rapid"
 )
 
@@ -171,6 +172,9 @@ func rawBool(raw interface{}) (string, error) {
 			return cBool(v == 1), nil
 		}
 	}
+	if rv := reflect.ValueOf(raw); rv.Kind() == reflect.Bool {
+		return cBool(rv.Bool()), nil
+	}
 	return "", fmt.Errorf("bool column holds %T(%v)", raw, raw)
 }
 
@@ -184,6 +188,9 @@ func rawString(raw interface{}) (string, bool) {
 	rv := reflect.ValueOf(raw)
 	if rv.Kind() == reflect.String {
 		return rv.String(), true
+	}
+	if rv.Kind() == reflect.Slice && rv.Type().Elem().Kind() == reflect.Uint8 {
+		return string(rv.Bytes()), true
 	}
 	return "", false
 }
@@ -869,6 +876,156 @@ func unixtimeKind(base *Kind, ptr bool) *Kind {
 	return k
 }
 
+// deletedAtKind: gorm.DeletedAt as it appears in gorm.Model; always NULL here (a
+// soft-deleted row is invisible to the readers by design: C08's subject).
+func deletedAtKind() *Kind {
+	typ := reflect.TypeOf(gorm.DeletedAt{})
+	k := &Kind{Name: "gorm.DeletedAt", Group: "nullable", Type: typ, Family: FTime, Nullable: true, Special: true, ZeroCanon: Null}
+	k.gen = func(t *rapid.T, label string) (reflect.Value, bool) { return reflect.New(typ).Elem(), false }
+	k.canon = func(v reflect.Value) string {
+		d := v.Interface().(gorm.DeletedAt)
+		if !d.Valid {
+			return Null
+		}
+		return cTime(d.Time)
+	}
+	k.canonRaw = rawTime
+	k.dbValue = func(v reflect.Value) interface{} { return nil }
+	return k
+}
+
+// ignored kinds: only used for `gorm:"-"` fields (no column)
+func ignoredKind(name string, typ reflect.Type, gen func(t *rapid.T, label string) reflect.Value, canon func(v reflect.Value) string) *Kind {
+	k := &Kind{Name: "ignored:" + name, Group: "ignored", Type: typ, Family: FOpaque}
+	k.gen = func(t *rapid.T, label string) (reflect.Value, bool) { return gen(t, label), false }
+	k.canon = canon
+	k.ZeroCanon = canon(reflect.Zero(typ))
+	return k
+}
+
+// ---- further custom kinds ---------------------------------------------------------------------------
+
+// namedKind: a named type over a basic kind, without methods; behaves like the basic kind.
+func namedKind(name string, typ reflect.Type, base *Kind) *Kind {
+	k := &Kind{Name: "named:" + name, Group: "named", Type: typ, Family: base.Family, Special: true, ZeroCanon: base.ZeroCanon, KeyOK: false}
+	conv := func(v reflect.Value) reflect.Value { return v.Convert(base.Type) }
+	k.gen = func(t *rapid.T, label string) (reflect.Value, bool) {
+		v, b := base.gen(t, label)
+		return v.Convert(typ), b
+	}
+	k.canon = func(v reflect.Value) string { return base.canon(conv(v)) }
+	k.canonRaw = base.canonRaw
+	k.dbValue = func(v reflect.Value) interface{} { return base.dbValue(conv(v)) }
+	k.distinct = func(i int) reflect.Value { return base.distinct(i).Convert(typ) }
+	for _, d := range base.Defaults {
+		if !d.NonCanonical {
+			k.Defaults = append(k.Defaults, d)
+		}
+	}
+	return k
+}
+
+func strListKind() *Kind {
+	typ := reflect.TypeOf(StrList(nil))
+	c := func(l StrList) string {
+		if l == nil {
+			return Null
+		}
+		return fmt.Sprintf("S:%q", []string(l))
+	}
+	k := &Kind{Name: "custom:StrList", Group: "custom", Type: typ, Family: FOpaque, Special: true, Nullable: true, ZeroCanon: Null}
+	k.gen = func(t *rapid.T, label string) (reflect.Value, bool) {
+		s, b := genStrings(t, label)
+		return reflect.ValueOf(StrList(s)), b
+	}
+	k.canon = func(v reflect.Value) string { return c(v.Interface().(StrList)) }
+	k.canonRaw = func(raw interface{}) (string, error) {
+		s, ok := rawString(raw)
+		if !ok {
+			return "", fmt.Errorf("StrList column holds %T(%v)", raw, raw)
+		}
+		var l StrList
+		if err := l.Scan(s); err != nil {
+			return "", err
+		}
+		return c(l), nil
+	}
+	k.dbValue = func(v reflect.Value) interface{} { x, _ := v.Interface().(StrList).Value(); return x }
+	k.distinct = func(i int) reflect.Value { return reflect.ValueOf(StrList{strconv.Itoa(i)}) }
+	return k
+}
+
+func uuidKind() *Kind {
+	typ := reflect.TypeOf(UUID{})
+	c := func(u UUID) string { return "uuid:" + hex.EncodeToString(u[:]) }
+	k := &Kind{Name: "custom:UUID", Group: "custom", Type: typ, Family: FOpaque, Special: true, ZeroCanon: c(UUID{})}
+	k.gen = func(t *rapid.T, label string) (reflect.Value, bool) {
+		var u UUID
+		switch rapid.IntRange(0, 3).Draw(t, label+".ub") {
+		case 0:
+			return reflect.ValueOf(u), true
+		case 1:
+			for i := range u {
+				u[i] = 0xff
+			}
+			return reflect.ValueOf(u), true
+		}
+		copy(u[:], rapid.SliceOfN(rapid.Byte(), 16, 16).Draw(t, label+".u"))
+		return reflect.ValueOf(u), false
+	}
+	k.canon = func(v reflect.Value) string { return c(v.Interface().(UUID)) }
+	k.canonRaw = func(raw interface{}) (string, error) {
+		s, ok := rawString(raw)
+		if !ok {
+			return "", fmt.Errorf("UUID column holds %T(%v)", raw, raw)
+		}
+		var u UUID
+		if err := u.Scan(s); err != nil {
+			return "", err
+		}
+		return c(u), nil
+	}
+	k.dbValue = func(v reflect.Value) interface{} { x, _ := v.Interface().(UUID).Value(); return x }
+	k.distinct = func(i int) reflect.Value { return reflect.ValueOf(UUID{15: byte(i)}) }
+	return k
+}
+
+func levelKind() *Kind {
+	typ := reflect.TypeOf(Level(0))
+	k := &Kind{Name: "custom:Level", Group: "custom", Type: typ, Family: FOpaque, Special: true, ZeroCanon: cInt(0)}
+	k.gen = func(t *rapid.T, label string) (reflect.Value, bool) {
+		if rapid.IntRange(0, 3).Draw(t, label+".lb") == 0 {
+			return reflect.ValueOf(rapid.SampledFrom([]Level{0, -1000, math.MaxInt32, math.MinInt32}).Draw(t, label+".lv")), true
+		}
+		return reflect.ValueOf(Level(rapid.Int32().Draw(t, label+".l"))), false
+	}
+	k.canon = func(v reflect.Value) string { return cInt(v.Int()) }
+	k.canonRaw = func(raw interface{}) (string, error) {
+		rv := reflect.ValueOf(raw)
+		if rv.Kind() != reflect.Int64 {
+			return "", fmt.Errorf("Level column holds %T(%v)", raw, raw)
+		}
+		return cInt(rv.Int() - 1000), nil
+	}
+	k.dbValue = func(v reflect.Value) interface{} { return v.Int() + 1000 }
+	k.distinct = func(i int) reflect.Value { return reflect.ValueOf(Level(i)) }
+	return k
+}
+
+func stampKind() *Kind {
+	typ := reflect.TypeOf(Stamp{})
+	k := &Kind{Name: "custom:Stamp", Group: "custom", Type: typ, Family: FOpaque, Special: true, ZeroCanon: cTime(time.Time{})}
+	k.gen = func(t *rapid.T, label string) (reflect.Value, bool) {
+		tm, b := genTime(t, label)
+		return reflect.ValueOf(Stamp(tm)), b
+	}
+	k.canon = func(v reflect.Value) string { return cTime(time.Time(v.Interface().(Stamp))) }
+	k.canonRaw = rawTime
+	k.dbValue = func(v reflect.Value) interface{} { return time.Time(v.Interface().(Stamp)) }
+	k.distinct = func(i int) reflect.Value { return reflect.ValueOf(Stamp(time.Date(2000, 1, 1, 0, 0, i, 0, time.UTC))) }
+	return k
+}
+
 // ---- untyped JSON payloads -----------------------------------------------------------------------------
 //
 // `serializer:json` over interface{}-bearing types. The documented behaviour is
@@ -1151,7 +1308,29 @@ var (
 	KAttrs    = attrsKind()
 	KPtrPoint = pointerKind(KPoint)
 	KPtrLabel = pointerKind(KLabel)
-	Customs   = []*Kind{KLabel, KPoint, KAttrs, KPtrPoint, KPtrLabel}
+	KStrList  = strListKind()
+	KUUID     = uuidKind()
+	KLevel    = levelKind()
+	KStamp    = stampKind()
+	Customs   = []*Kind{KLabel, KPoint, KAttrs, KPtrPoint, KPtrLabel, KStrList, KUUID, KLevel, KStamp}
+
+	KDeletedAt   = deletedAtKind()
+	KIgnoredDoc  = ignoredKind("Doc", reflect.TypeOf(Doc{}), func(t *rapid.T, label string) reflect.Value { d, _ := genDoc(t, label); return reflect.ValueOf(d) }, func(v reflect.Value) string { return jsonCanon(v.Interface()) })
+	KIgnoredFunc = ignoredKind("func()", reflect.TypeOf(func() {}), func(t *rapid.T, label string) reflect.Value {
+		if rapid.Bool().Draw(t, label+".fn") {
+			return reflect.ValueOf(func() {})
+		}
+		return reflect.Zero(reflect.TypeOf(func() {}))
+	}, func(v reflect.Value) string { return fmt.Sprintf("func-nil:%v", v.IsNil()) })
+
+	KStatus = namedKind("Status(string)", reflect.TypeOf(Status("")), KString)
+	KCount  = namedKind("Count(int64)", reflect.TypeOf(Count(0)), KInt64)
+	KRaw    = namedKind("Raw([]byte)", reflect.TypeOf(Raw(nil)), KBytes)
+	KFlag   = namedKind("Flag(bool)", reflect.TypeOf(Flag(false)), KBool)
+	KRatio  = namedKind("Ratio(float64)", reflect.TypeOf(Ratio(0)), KFloat64)
+	// KFlag (a named bool) is not in the grammar: the SQLite dialector declares bool columns "numeric",
+	// go-sqlite3 returns int64 for them and database/sql cannot assign an int64 to a named bool kind
+	Named = []*Kind{KStatus, KCount, KRaw, KRatio}
 
 	KJSONStrings = jsonKind("[]string", reflect.TypeOf([]string(nil)), func(t *rapid.T, label string) (reflect.Value, bool) {
 		s, b := genStrings(t, label)
@@ -1235,6 +1414,7 @@ func AllKinds() []*Kind {
 	out = append(out, Pointers...)
 	out = append(out, Nullables...)
 	out = append(out, Customs...)
+	out = append(out, Named...)
 	out = append(out, Serializers...)
 	out = append(out, UnixtimeUnsigned...)
 	out = append(out, SerializerTypes...)
